@@ -147,6 +147,9 @@ impl<'a> CaseRunner<'a> {
       if kind == "step-bound" {
         fs.push(Finding { prop: "C07", sig: "unbounded-recursion".into(), msg: "the build exceeded the step bound (unbounded recursion through requires)".into(), at });
       }
+      if self.opts.wellformed && kind == "overlapping-write" {
+        fs.push(Finding { prop: "C06", sig: "false-overlap-in-well-formed-program".into(), msg: format!("a program in which every resource has exactly one writing task aborted with an overlapping-write error (re-execution of the same writer must never be reported as an overlap): {}", msg), at });
+      }
       if self.opts.wellformed && kind != "injected-panic" && kind != "user-panic" {
         fs.push(Finding { prop: "C20", sig: format!("abort-in-well-formed-program:{}", kind), msg: format!("a program that contains no violation in any state aborted: {}", msg), at });
       }
@@ -254,6 +257,7 @@ impl<'a> CaseRunner<'a> {
     self.rep.add("verdicts_consistent", cons as u64);
     self.rep.add("verdicts_inconsistent", incons as u64);
     self.rep.add("events", rec.events.len() as u64);
+    self.rep.max("max_events_in_one_session", rec.events.len() as u64);
     let _ = what;
     fs
   }
